@@ -219,17 +219,18 @@ def extract_fn(scratch, kv, lines, report):
         idx = body.find(prefix)
         if idx < 0 or body.find(prefix, idx + 1) >= 0:
             raise Undecided("extract: proof anchor `%s` not found exactly once in %s" % (prefix, kv["fn"]))
-        # end of the statement that contains the anchor: the next `;` at bracket depth 0
+        # end of the statement that contains the anchor: the next `;` at the outermost bracket depth reached so far
+        # (the anchor may sit inside a nested block of its statement, e.g. `let x = if c { <anchor> } else { .. };`)
         depth = 0
+        low = 0
         end = None
         for i, c in rsrc.scan(body, idx):
             if c in "([{":
                 depth += 1
             elif c in ")]}":
                 depth -= 1
-                if depth < 0:
-                    break
-            elif c == ";" and depth == 0:
+                low = min(low, depth)
+            elif c == ";" and depth == low:
                 end = i + 1
                 break
         if end is None:
